@@ -1069,6 +1069,8 @@ class OrderedSet(list, Generic[T], CBORSerializable):
         if isinstance(value, CBORTag) and value.tag == 258:
             if isclass(type_arg) and issubclass(type_arg, CBORSerializable):
                 value.value = [type_arg.from_primitive(v) for v in value.value]
+            elif isclass(type_arg) and issubclass(type_arg, bytes):
+                value.value = [type_arg(v) for v in value.value]
             return cls(value.value, use_tag=True)
 
         use_tag = isinstance(value, set)
@@ -1076,6 +1078,8 @@ class OrderedSet(list, Generic[T], CBORSerializable):
         if isinstance(value, (list, tuple, set)):
             if isclass(type_arg) and issubclass(type_arg, CBORSerializable):
                 value = [type_arg.from_primitive(v) for v in value]
+            elif isclass(type_arg) and issubclass(type_arg, bytes):
+                value = [type_arg(v) for v in value]
 
             # If the value is a set, we know it is coming from a CBORTag (#6.258)
             return cls(list(value), use_tag=use_tag)
